@@ -103,6 +103,15 @@ func c16Sets() []*sgen.Schema {
 				{Kind: sgen.KObject, Name: "Change", Fields: []*sgen.Field{f("bump", N("Int"))}},
 				{Kind: sgen.KObject, Name: "Feed", Fields: []*sgen.Field{f("ev", N("Int"))}},
 			}},
+		// round 10: the implicit schema carries a directive (and one custom root) through an extend block while a root type
+		// with its default name may arrive in a later load: it is a root type however the loads are cut
+		{Blocks: []*sgen.SchemaBlock{{Extend: true, Subscription: "Feed", Dirs: []sgen.DirUse{{Name: "mark"}}}},
+			Defs: []*sgen.Def{
+				{Kind: sgen.KObject, Name: "Query", Fields: []*sgen.Field{f("q", N("Int"))}},
+				{Kind: sgen.KObject, Name: "Mutation", Fields: []*sgen.Field{f("bump", N("Int"))}},
+				{Kind: sgen.KObject, Name: "Feed", Fields: []*sgen.Field{f("ev", N("Int"))}},
+				{Kind: sgen.KDirective, Name: "mark", Locations: []string{"SCHEMA"}},
+			}},
 		{Defs: []*sgen.Def{
 			{Kind: sgen.KObject, Name: "Query", Fields: []*sgen.Field{f("a", N("A"))}},
 			{Kind: sgen.KObject, Name: "A", Fields: []*sgen.Field{f("id", N("ID"))}},
